@@ -107,6 +107,21 @@ CLAIMED = {
              "(thorough: all). Outside: part-kernel choice agreement with the weight encoder, cost-based candidate choice.",
         technique="dynamic symbolic execution of the real Python functions over z3 proxies (symx), bounded; restated SHRAM-rule oracle; counterexample replay",
         design="DESIGN.md §3 C15"),
+    "C06": dict(
+        text="Bounded solver verdict on the real register-level generator through its public entry point: generate_register_command_stream on "
+             "two-operation lists whose operations share a template (conv with 1 or 2 cores, average pool with explicit rescale, DMA) and "
+             "differ in a group of symbolic, independent fields (40-bit base addresses, weight/scale ranges, tiles, zero points, pads, regions, "
+             "OFM scale/shift, DMA source/destination/length/regions), so that every register of the group holds an arbitrary previous value "
+             "when the second operation is generated. A reference decoder tracks the register file over the emitted words and at each NPU_OP "
+             "word requires every direct register to hold that operation's value - written or elided - including address/shift bits in the "
+             "command parameter, with no truncation; alignment/length errors exactly when the hardware rule is broken; one op word per "
+             "operation; exactly one STOP as the last word.",
+        note="Trusted: z3, symx proxies, my reference register map/decoder (cmd0 = 16-bit parameter, cmd1 = 32-bit payload + parameter bits). "
+             "calc_blockdep is stubbed to 0 (C04) and the tile group runs with empty access sets. Outside: lists longer than two operations "
+             "(covered per register by the arbitrary-previous-value argument), cross-group elision coupling, stride and SHRAM-layout registers "
+             "(derived values; C15), compiled-network streams.",
+        technique="dynamic symbolic execution of the real Python functions over z3 proxies (symx), bounded; reference decoder; counterexample replay",
+        design="DESIGN.md §3 C06"),
 }
 
 NOT_APPLICABLE = {
